@@ -26,7 +26,7 @@ func checkC10(w *World, r *Report) {
 }
 
 func checkC10MustValidate(w *World, r *Report) {
-	ru := r.Rule("C10.1", "validation on every registration and deletion path: the tree mutators are called only from the Txn entry points; Handle/Update insert the route returned by NewRoute on its nil-error branch; Delete removes the pattern it just validated with parseRoute; NewRoute stores the pattern it validated", 7)
+	ru := r.Rule("C10.1", "validation on every registration and deletion path: the tree mutators are called only from the Txn entry points; Handle/Update insert the route returned by NewRoute on its nil-error branch; Delete removes the pattern it just validated with parseRoute; NewRoute stores the pattern it validated", 4)
 	inner := w.FoxType("tXn")
 	allowed := map[string]string{"insert": "Handle HandleRoute", "update": "Update UpdateRoute", "remove": "Delete", "truncate": "Truncate"}
 	newRoute := w.Method("Router", "NewRoute")
@@ -235,7 +235,7 @@ func checkC10Scanner(w *World, r *Report) {
 	}
 	inBody := func(n ast.Node) bool { return n.Pos() >= loop.Body.Pos() && n.End() <= loop.Body.End() }
 
-	ru := r.Rule("C10.2", "no byte of the pattern is consumed uninspected: within one iteration of the validator's scanning loop, every advance of the cursor steps only over bytes that were read (url[i+k] in a condition or assignment) on that path", 4)
+	ru := r.Rule("C10.2", "no byte of the pattern is consumed uninspected: within one iteration of the validator's scanning loop, every advance of the cursor steps only over bytes that were read (url[i+k] in a condition or assignment) on that path", 2)
 	type finding struct {
 		pos token.Pos
 		ok  bool
@@ -359,12 +359,12 @@ func checkC10Scanner(w *World, r *Report) {
 		}
 		ru.Check("cursor advance in parseRoute", w.Pos(a.pos), "the bytes stepped over were read on this path", a.ok, why)
 	}
-	if len(advances) < 4 {
-		ru.Fail("cursor advances", w.Pos(loop.Pos()), "the advances of the scanning loop are found", fmt.Sprintf("%d", len(advances)))
+	if len(advances) < 3 {
+		r.Unrecognised("C10.2: only %d cursor advances found in the scanning loop", len(advances))
 	}
 
 	// ---- C10.3: count check after each increment of the wildcard counter
-	ru3 := r.Rule("C10.3", "limits are enforced: after every increment of the wildcard counter the loop does not continue (or return success) without comparing the counter with the configured maximum; the parameter-name length is compared with the configured maximum in both wildcard states", 3)
+	ru3 := r.Rule("C10.3", "limits are enforced: after every increment of the wildcard counter the loop does not continue (or return success) without comparing the counter with the configured maximum; the parameter-name length is compared with the configured maximum in both wildcard states", 2)
 	isMaxCheck := func(e ast.Expr) bool {
 		s := exprStr(e)
 		return strings.Contains(s, "paramCnt") && strings.Contains(s, "maxParams")
